@@ -12,6 +12,7 @@ What the C code counts.  `janet_vm.listener_count` is incremented / decremented 
   janet_ev_threaded_call   +1                       a helper thread is started                  (`await`,`callNoFiber`,`procWait`)
   janet_ev_post_event      +1                       an event is written to the self pipe        (`post`)
   janet_ev_handle_selfpipe -1  if cb != NULL        an event is read from the self pipe         (`deliver…`)
+                               (unconditional once `Gen.Loop.selfpipeDecNeedsCb = false`)
 
 `janet_loop_done` is `!(spawn non-empty || tq_count || listener_count)` (`Gen.Loop.doneTerms`).
 
@@ -39,9 +40,11 @@ structure Timer where
 structure Cfg where
   /-- janet_thread_chan_cb releases the root of the fiber whose pending entry was consumed -/
   tchanUnroot : Bool
+  /-- janet_ev_handle_selfpipe decrements listener_count for every event read, also those with cb = NULL -/
+  nullDec : Bool
   deriving Repr
 
-def Cfg.ofGen : Cfg := { tchanUnroot := Gen.Loop.tchanUnrootCb }
+def Cfg.ofGen : Cfg := { tchanUnroot := Gen.Loop.tchanUnrootCb, nullDec := !Gen.Loop.selfpipeDecNeedsCb }
 
 structure St where
   /-- janet_vm.listener_count (an Int, so that an unmatched decrement is visible) -/
@@ -149,7 +152,9 @@ def step (cfg : Cfg) (s : St) : Ev → Option St
   | .deliverPosted => if s.posted = 0 then none else some { s with posted := s.posted - 1, lc := s.lc - 1 }
   | .deliverNull =>
     -- `if (NULL != response.cb) { response.cb(response.msg); janet_ev_dec_refcount(); }` : nothing happens for cb = NULL
-    if s.postedNull = 0 then none else some { s with postedNull := s.postedNull - 1, nullStuck := s.nullStuck + 1 }
+    if s.postedNull = 0 then none
+    else if cfg.nullDec then some { s with postedNull := s.postedNull - 1, lc := s.lc - 1 }
+    else some { s with postedNull := s.postedNull - 1, nullStuck := s.nullStuck + 1 }
   | .tchanPend => some { s with tchanPending := s.tchanPending + 1, roots := s.roots + 1 }
   | .deliverChan =>
     if s.posted = 0 ∨ s.tchanPending = 0 then none
@@ -202,12 +207,13 @@ def doneSpec : List String :=
 def pollGuardSpec : String := "janet_vm.tq_count||janet_atomic_load(&janet_vm.listener_count)"
 
 /-- every site that touches listener_count, with the transition that mirrors it -/
-def siteSpec : List (String × String × String × List String) := [
+def siteSpec (selfpipeDecNeedsCb : Bool) : List (String × String × String × List String) := [
   ("ev.c", "janet_async_end", "-", ["if(fiber->ev_callback)", "if(!(fiber->flags&0x1))"]),                                         -- aend
   ("ev.c", "janet_async_start_fiber", "+", []),                                                                                     -- astart
   ("ev.c", "janet_loop1", "-", ["while(janet_vm.spawn.head!=janet_vm.spawn.tail)", "if(task.fiber->gc.flags&0x20000)"]),           -- pop
   ("ev.c", "janet_loop1", "+", ["while(janet_vm.spawn.head!=janet_vm.spawn.tail)", "if(is_suspended)"]),                            -- ran _ true
-  ("ev.c", "janet_ev_handle_selfpipe", "-", ["if(status>0)", "if(((void*)0)!=response.cb)"]),                                       -- deliver*
+  ("ev.c", "janet_ev_handle_selfpipe", "-",
+     if selfpipeDecNeedsCb then ["if(status>0)", "if(((void*)0)!=response.cb)"] else ["if(status>0)"]),                            -- deliver*
   ("ev.c", "janet_ev_post_event", "+", []),                                                                                         -- post
   ("ev.c", "janet_ev_threaded_call", "+", []),                                                                                      -- await / callNoFiber / procWait
   ("gc.c", "janet_deinit_block", "-", ["switch(mem->flags&0xFF)", "caseJANET_MEMORY_FIBER", "if(f->ev_state&&!(f->flags&0x1))"])   -- gcListener
